@@ -1,7 +1,7 @@
 (* Model/Sectors.v — charge conservation of a sector and the enumeration of all
    valid sectors (AbelianArray.is_valid_sector / gen_valid_sectors). *)
 From SV Require Import Base.Prelude Base.Sym.
-Open Scope Z_scope.
+Local Open Scope Z_scope.
 
 Fixpoint product {A} (ls : list (list A)) : list (list A) :=   (* itertools.product *)
   match ls with
